@@ -115,6 +115,23 @@ def showDeHandle (tv : Except Err (Val × Rec)) (res : Heap (Val × Rec) × Exce
     s!"ok(n={a.val.2.n};log={showLog a.val.2.log})[count={cnt},allocs={added},fresh={fresh},eq={eq}]"
   | .error e => s!"err(at={e.at_};log={showLog e.log})[allocs={added}]"
 
+/-- `dip`: in-place deserialisation into block `pi` of `oldHeap` -/
+def showDip (tv : Except Err (Val × Rec)) (pi : Nat) (res : Heap (Val × Rec) × Except Err Unit × Handle (Val × Rec)) : String :=
+  let (h', r, a) := res
+  let added := h'.blocks.length - oldHeap.blocks.length
+  let oldCnt := match h'.blocks[pi]? with | some b => b.count | none => 0
+  let oldSame := (List.range oldHeap.blocks.length).all (fun i =>
+    match h'.blocks[i]?, oldHeap.blocks[i]? with
+    | some x, some y => Val.beq x.value.1 y.value.1 && (i == pi || x.count == y.count)
+    | _, _ => false)
+  match r with
+  | .ok () =>
+    let cnt := match h'.blocks[a.idx]? with | some b => b.count | none => 0
+    let fresh := a.idx == oldHeap.blocks.length
+    let eq := match tv with | .ok (v, _) => Val.beq a.val.1 v | .error _ => false
+    s!"ok(n={a.val.2.n};log={showLog a.val.2.log})[count={cnt},allocs={added},fresh={fresh},eq={eq},old_count={oldCnt},old_same={oldSame}]"
+  | .error e => s!"err(at={e.at_};log={showLog e.log})[allocs={added},old_count={oldCnt},old_same={oldSame},place_same={a.idx == pi}]"
+
 def answer (line : String) : String :=
   match line.trimAscii.toString.splitOn " " with
   | "ser" :: k :: rest =>
@@ -134,6 +151,16 @@ def answer (line : String) : String :=
       let a := Arc.deserialize valPayload oldHeap d
       let u := UniqueArc.deserialize valPayload oldHeap d
       s!"T={showDeT t} Arc={showDeHandle t a} Unique={showDeHandle t u}"
+    | _, _ => "bad-query"
+  | "dip" :: k :: rest =>
+    match k.toNat?, parsePayload rest with
+    | some k, some v =>
+      let d : DeInput := ⟨v, Rec.init k⟩
+      let t := valPayload.deserialize d
+      -- the Arc place is the shared block 0 (three owners), the UniqueArc place the sole-owned block 1
+      let a := Arc.deserializeInPlace valPayload oldHeap ⟨0, (.u8 0, Rec.init 0)⟩ d
+      let u := UniqueArc.deserializeInPlace valPayload oldHeap ⟨1, (.bool true, Rec.init 0)⟩ d
+      s!"T={showDeT t} Arc={showDip t 0 a} Unique={showDip t 1 u}"
     | _, _ => "bad-query"
   | _ => "bad-query"
 
